@@ -223,7 +223,7 @@ def sum(t, dim=None, keepdim=False, _normalize=False):
     if keepdim:
         return result
     else:
-        return tn.squeeze(result)
+        return tn.squeeze(result, [d % t.dim() for d in dim])
 
 
 def mean(t, dim=None, marginals=None, keepdim=False):
